@@ -9,7 +9,16 @@ Open Scope Z_scope.
 Definition zb (z : Z) : bool := negb (z =? 0).
 
 (* an item of the history: an operation or a probe request *)
-Inductive item := IOp (o : op) | IProbe.
+(* besides the calls of SortedSet and the probe: direct calls of the exported ZSkipList /
+   ZSkipListNode methods (read-only), made through the probe's VerifList() *)
+Inductive item :=
+| IOp (o : op) | IProbe
+| IWalk (backward : bool)            (* HeadNode().Next()... / TailNode().Before()... *)
+| IHeight                            (* Height() *)
+| IRankOf (s e : Z)                  (* zsl.GetRank(score, ele) *)
+| IByRank (k : Z)                    (* zsl.GetElementByRank(rank) *)
+| IInRange (a b : Z) | IFirst (a b : Z) | ILast (a b : Z)
+| IDelAbsent (s e : Z).               (* zsl.Delete(score, ele) for an ele that is not in the set: nil *)
 
 Definition dec_item (s : sx) : option item :=
   match s with
@@ -24,6 +33,15 @@ Definition dec_item (s : sx) : option item :=
   | SList [SInt 8; SInt a; SInt b; SInt r] => Some (IOp (GetRangeByScore a b (zb r)))
   | SList [SInt 9] => Some (IOp Len)
   | SList [SInt 10] => Some IProbe
+  | SList [SInt 11] => Some (IWalk false)
+  | SList [SInt 12] => Some (IWalk true)
+  | SList [SInt 13] => Some IHeight
+  | SList [SInt 14; SInt sc; SInt e] => Some (IRankOf sc e)
+  | SList [SInt 15; SInt k] => Some (IByRank k)
+  | SList [SInt 16; SInt a; SInt b] => Some (IInRange a b)
+  | SList [SInt 17; SInt a; SInt b] => Some (IFirst a b)
+  | SList [SInt 18; SInt a; SInt b] => Some (ILast a b)
+  | SList [SInt 19; SInt sc; SInt e] => Some (IDelAbsent sc e)
   | _ => None
   end.
 
@@ -34,7 +52,9 @@ Record probe := mkProbe {
   pr_head_spans : list Z; pr_head_fwds : list Z; pr_nodes : list pnode;
   pr_tail : Z; pr_length : Z; pr_level : Z; pr_dict : list (Z * Z) }.
 
-Inductive obs := ROut (o : out) (h : Z) | RProbe (p : probe).
+(* RPairs: the (score, member) pairs met on a walk; RNode kind score member: a node pointer
+   (kind 0 nil, 1 the header, 2 a node) *)
+Inductive obs := ROut (o : out) (h : Z) | RProbe (p : probe) | RPairs (l : list (Z * Z)) | RNode (kind sc e : Z).
 
 Definition dec_pnode (s : sx) : option pnode :=
   match s with
@@ -56,6 +76,8 @@ Definition dec_obs (s : sx) : option obs :=
   | SList [SInt 1; SInt z] => Some (ROut (OInt z) 1)
   | SList [SInt 2; l] => match sx_ints l with Some l => Some (ROut (OList l) 1) | None => None end
   | SList [SInt 3] => Some (ROut OCrash 1)
+  | SList [SInt 5; SList l] => match map_opt dec_pair l with Some l => Some (RPairs l) | None => None end
+  | SList [SInt 6; SInt k; SInt sc; SInt e] => Some (RNode k sc e)
   | SList [SInt 4; SList [hs; hf]; SList ns; SInt t; SInt len; SInt lvl; SList d] =>
       match sx_ints hs, sx_ints hf, map_opt dec_pnode ns, map_opt dec_pair d with
       | Some hs, Some hf, Some ns, Some d => Some (RProbe (mkProbe hs hf ns t len lvl d))
@@ -182,6 +204,70 @@ Definition lane_probe_ok (z : lzsl) (p : probe) : bool :=
            chain (pr_nodes p) &&
   (num (ltail z) =? pr_tail p) && (llen z =? pr_length p) && (Z.of_nat (llevel z) =? pr_level p).
 
+(* ---- direct calls of the list's exported methods: (property verdict, correspondence verdict) *)
+Definition node_is (x : option entry) (kind sc e : Z) : bool :=
+  match x with
+  | Some y => (kind =? 2) && (score y =? sc) && (member y =? e)
+  | None => kind =? 0
+  end.
+
+Definition ref_is (z : lzsl) (x : option ref) (kind sc e : Z) : bool :=
+  match x with
+  | Some Nil => kind =? 0
+  | Some Head => kind =? 1
+  | Some (Node e') => (kind =? 2) && (e' =? e) &&
+                      match lscore z (Node e') with Some s' => s' =? sc | None => false end
+  | None => false
+  end.
+
+Definition direct (it : item) (st : list entry) (z : zset) (lzs : lzset) (r : obs) : verdict * verdict :=
+  let R := ranking st in
+  let l := lz lzs in
+  match it, r with
+  | IWalk bwd, RPairs ps =>
+      (check_that (list_eqb pair_eqb ps (if bwd then rev R else R)) (VPropFail (if bwd then 13 else 11)),
+       vjoin (check_that (list_eqb pair_eqb ps (if bwd then rev (zsl z) else zsl z)) (VMismatch 23))
+             (check_that (if bwd
+                          then match lwalk l true (ltail l) (Z.to_nat (llen l)) with
+                               | Some ms => list_eqb Z.eqb ms (map snd ps)
+                               | None => false
+                               end
+                          else list_eqb pair_eqb ps (map (fun en => (nscore (snd en), fst en)) (lnodes l)))
+                         (VMismatch 23)))
+  | IHeight, ROut (OInt h) _ =>
+      (VOk, check_that (Z.of_nat (llevel l) =? h) (VMismatch 23))
+  | IRankOf sc e, ROut (OInt k) _ =>
+      let present := existsb (pair_eqb (sc, e)) R in
+      let absent := negb (memb e (map member R)) in
+      (if present
+       then check_that (match index_of e (map member R) 0 with Some i => k =? i + 1 | None => false end) (VPropFail 3)
+       else if absent then check_that (k =? 0) (VPropFail 3) else VOk,
+       vjoin (if present || absent then check_that (zsl_rank (zsl z) sc e =? k) (VMismatch 23) else VOk)
+             (check_that (match lget_rank l sc e with Some k' => k' =? k | None => false end) (VMismatch 23)))
+  | IByRank k, RNode kind sc e =>
+      (if (1 <=? k) && (k <=? zlen R) then check_that (node_is (nth_error R (Z.to_nat (k - 1))) kind sc e) (VPropFail 4)
+       else if k =? 0 then VOk else check_that (kind =? 0) (VPropFail 4),
+       check_that (ref_is l (lby_rank l k) kind sc e) (VMismatch 23))
+  | IInRange a b, ROut (OBool v) _ =>
+      (VOk,
+       vjoin (check_that (Bool.eqb (is_in_range (zsl z) a b) v) (VMismatch 23))
+             (check_that (match lis_in_range l a b with Some v' => Bool.eqb v' v | None => false end) (VMismatch 23)))
+  | IFirst a b, RNode kind sc e =>
+      (check_that (node_is (find (in_score a b) R) kind sc e) (VPropFail 5),
+       vjoin (check_that (node_is (hd_error (first_in_range (zsl z) a b)) kind sc e) (VMismatch 23))
+             (check_that (ref_is l (lfirst_in_range l a b) kind sc e) (VMismatch 23)))
+  | ILast a b, RNode kind sc e =>
+      (check_that (node_is (find (in_score a b) (rev R)) kind sc e) (VPropFail 5),
+       vjoin (check_that (node_is (hd_error (last_in_range (zsl z) a b)) kind sc e) (VMismatch 23))
+             (check_that (ref_is l (llast_in_range l a b) kind sc e) (VMismatch 23)))
+  | IDelAbsent sc e, ROut (OBool found) _ =>
+      if memb e (map member R) then (VOk, VOk)
+      else (check_that (negb found) (VPropFail 7),
+            vjoin (check_that (Bool.eqb (snd (zsl_delete (zsl z) sc e)) found) (VMismatch 23))
+                  (check_that (match ldelete l sc e with Some (_, b) => Bool.eqb b found | None => false end) (VMismatch 23)))
+  | _, _ => (VBad, VOk)
+  end.
+
 (* the reference is compared at every step; the models (stage 1: level-0 scans, stage 2: the
    lanes, fed with the observed node heights) until their first mismatch, which is remembered
    in [first] while the walk goes on looking for a property failure *)
@@ -209,6 +295,18 @@ Fixpoint walk_history (first : verdict) (live : bool) (z : zset) (lzs : lzset) (
       | VOk =>
           if live then
             match vjoin (probe_corr z p) (check_that (lane_probe_ok (lz lzs) p) (VMismatch 22)) with
+            | VOk => walk_history first true z lzs st its' rs'
+            | v => walk_history v false z lzs st its' rs'
+            end
+          else walk_history first false z lzs st its' rs'
+      | v => v
+      end
+  | it :: its', r :: rs' =>
+      let '(pv, cv) := direct it st z lzs r in
+      match pv with
+      | VOk =>
+          if live then
+            match cv with
             | VOk => walk_history first true z lzs st its' rs'
             | v => walk_history v false z lzs st its' rs'
             end
